@@ -330,6 +330,9 @@ type gen struct {
 	nickIDs       map[string]int
 	force         [][2]int // scripted block: (kind code, producer) pairs instead of random picks
 	scripted      bool
+	modeSwitch    bool // RevertToPOW / RevertToDPOS transactions (oracle only, not in the Coq model)
+	illegal       bool // illegal-proposal evidence against active producers (oracle only)
+	unmodelled    bool
 }
 
 func (g *gen) newRef(tx interfaces.Transaction) int {
@@ -358,6 +361,12 @@ func (g *gen) block(height uint32) *blockd {
 	for k := 0; k < ntx; k++ {
 		i := g.rng.Intn(len(keys))
 		kind := g.rng.Intn(9)
+		if g.modeSwitch && g.rng.Chance(12) {
+			kind = 9
+		}
+		if g.illegal && g.rng.Chance(8) {
+			kind = 10
+		}
 		if g.scripted {
 			kind, i = g.force[k][0], g.force[k][1]
 		}
@@ -456,6 +465,31 @@ func (g *gen) block(height uint32) *blockd {
 				b.Txs = append(b.Txs, d)
 				used[i] = true
 			}
+		case 10:
+			if exists && !used[i] && st == state.Active {
+				d := &txd{Kind: "illegal-proposal-evidence", P: i}
+				ev := payload.ProposalEvidence{Proposal: payload.DPOSProposal{Sponsor: keys[i], ViewOffset: nonce}, BlockHeader: []byte{1}, BlockHeight: height - 1}
+				cmp := payload.ProposalEvidence{Proposal: payload.DPOSProposal{Sponsor: keys[i], ViewOffset: nonce + 1}, BlockHeader: []byte{2}, BlockHeight: height - 1}
+				d.tx = mk(common2.TxVersion09, common2.IllegalProposalEvidence, &payload.DPOSIllegalProposals{Evidence: ev, CompareEvidence: cmp}, nil, nil, nil)
+				b.Txs = append(b.Txs, d)
+				used[i] = true
+				g.unmodelled = true
+			}
+		case 9:
+			if used[-1] {
+				break
+			}
+			if g.a.abt.GetConsensusAlgorithm() == state.DPOS {
+				d := &txd{Kind: "revert-to-pow", P: -1}
+				d.tx = mk(common2.TxVersion09, common2.RevertToPOW, &payload.RevertToPOW{Type: payload.NoBlock, WorkingHeight: height}, nil, nil, nil)
+				b.Txs = append(b.Txs, d)
+			} else {
+				d := &txd{Kind: "revert-to-dpos", P: -1, Amount: int64(g.rng.Range(1, 4))}
+				d.tx = mk(common2.TxVersion09, common2.RevertToDPOS, &payload.RevertToDPOS{WorkHeightInterval: uint32(d.Amount)}, nil, nil, nil)
+				b.Txs = append(b.Txs, d)
+			}
+			used[-1] = true
+			g.unmodelled = true
 		case 8:
 			if exists && !used[i] && st != state.Returned {
 				d := &txd{Kind: "topup", P: i, Amount: int64(g.rng.Range(1, 50)) * 1e8}
@@ -609,7 +643,7 @@ func main() {
 	functions.GetTransactionParameters = transaction.GetTransactionparameters
 	config.DefaultParams = *config.GetDefaultParams()
 	initKeys()
-	rng := lib.NewRng(run.Seed)
+	rng := lib.NewRng(run.Seed).Fork() // Fork: the raw streams of neighbouring seeds are shifted copies of each other
 	st := lib.NewStats("C21", "block sequences (10-26 blocks, 0-4 DPoS transactions each: register/update/cancel producer, v1 delegate votes and their cancellation, deposit top-up, deposit return after lock-up) over 8 producers on a standalone Arbiters+State; rollback height by height and by jumps, re-processing after rollback; parameters: lock-up 2-4 blocks, irreversibility bookkeeping on/off. nontrivial = trace in which some rollback changed the dump; distinct by transaction kinds and heights")
 
 	sh := &lib.Shards{Dir: run.Out, Imports: "From ELA Require Import corr.C21_corr.", CaseType: "C21_corr.case",
@@ -648,7 +682,7 @@ func main() {
 		}
 		a := newInst(c)
 		g := &gen{rng: rng, a: a, deposits: map[int][]string{}, allowConflict: rng.Chance(15) || sc != nil, refIDs: map[string]int{}, nickIDs: map[string]int{},
-			scripted: sc != nil}
+			scripted: sc != nil, modeSwitch: sc == nil && c.LihStart >= 0 && rng.Chance(50), illegal: sc == nil && rng.Chance(25)}
 		start := a.abt.ChainParams.VoteStartHeight
 		var blocks []*blockd
 		snaps := []snap{takeSnap(a.abt)} // snaps[i] = after i blocks
@@ -665,7 +699,7 @@ func main() {
 				obs = append(obs, vecCoq(project(a, g)))
 			}
 		}
-		modelled := len(g.refIDs) <= nRef && g.nick <= nNick && !g.conflict
+		modelled := len(g.refIDs) <= nRef && g.nick <= nNick && !g.conflict && !g.unmodelled
 		input := func(extra map[string]interface{}) map[string]interface{} {
 			m := map[string]interface{}{"config": c, "start": start, "blocks": blocks}
 			for k, v := range extra {
